@@ -58,6 +58,11 @@ MaxNums(s, best) ==
   IF s = <<>> THEN best
   ELSE IF Head(s).k = "n" /\ (best.k # "n" \/ NCmp(Head(s), best) > 0)
        THEN MaxNums(Tail(s), Head(s)) ELSE MaxNums(Tail(s), best)
+RECURSIVE MinNums(_, _)
+MinNums(s, best) ==
+  IF s = <<>> THEN best
+  ELSE IF Head(s).k = "n" /\ (best.k # "n" \/ NCmp(Head(s), best) < 0)
+       THEN MinNums(Tail(s), Head(s)) ELSE MinNums(Tail(s), best)
 
 \* the countable values of one argument: a referenced argument contributes its
 \* numbers only (logicals, text and blanks are skipped); a directly typed one
@@ -96,13 +101,14 @@ Ev(W, v, e) ==
     [] e[1] = "un" -> Lift1(e[2], Ev(W, v, e[3]))
     [] e[1] = "fn" ->
          (LET f == e[2]  args == e[3]
-          IN CASE f \in {"SUM", "MAX", "COUNT"} ->
+          IN CASE f \in {"SUM", "MAX", "MIN", "COUNT"} ->
                     (LET s == AllScalars(W, v, args)
                          er == FirstErr(s)
                      IN IF f = "COUNT" THEN IntV(CountNums(s))
                         ELSE IF er.k \in {"e", "any"} THEN er
                         ELSE IF f = "SUM" THEN SumNums(s)
-                        ELSE LET m == MaxNums(s, [k |-> "none"]) IN IF m.k = "n" THEN m ELSE Zero)
+                        ELSE LET m == IF f = "MAX" THEN MaxNums(s, [k |-> "none"]) ELSE MinNums(s, [k |-> "none"])
+                             IN IF m.k = "n" THEN m ELSE Zero)
                [] f = "IF" ->
                     (LET c == Truth(Scalar(Ev(W, v, args[1])))
                      IN IF IsErrLike(c) THEN c
